@@ -319,7 +319,7 @@ boot_draw = st.one_of(
     st.just(None), st.just(None), st.just(None),
     st.fixed_dictionaries({
         'file': st.sampled_from(['boot.img', 'boot.img', 'eltorito.bin', 'isolinux/isolinux.bin', 'boot/isolinux.bin']),
-        'catalog': st.sampled_from(['boot.cat', 'boot.cat', 'boot.cat', 'boot.catalog', 'isolinux/boot.cat']),
+        'catalog': st.sampled_from(['boot.cat', 'boot.cat', 'boot.catalog', 'isolinux/boot.cat', 'isolinux/boot.cat', 'boot/boot.cat']),
         'load_size': st.sampled_from([None, 4, 1]),
         'info_table': st.booleans(),
     }))
@@ -337,6 +337,7 @@ draw_st = st.fixed_dictionaries({
     'iso_extract': st.sampled_from([False, False, False, True]),
     'spell': st.sampled_from([0, 0, 1, 2, 3]),
     'bootcopy': st.sampled_from([0, 0, 1, 2, 3]),
+    'catname': st.sampled_from([0, 0, 1, 2, 3]),
     'chain': st.sampled_from([0, 0, 0, 0, 1, 2, 3, 5, 7, 8, 8, 9, 9]),
     'chain_names': st.lists(st.sampled_from(['d', 'lib', 'AB', 'ab', 'sub', 'n', 'deep', 'x1', 'Data', 'data', 'ü', 'long_directory_name']),
                             min_size=9, max_size=9),
@@ -384,6 +385,14 @@ def build_case(d):
         for i in range(1, len(cparts)):
             add('/'.join(cparts[:i]), 'dir')
         used.add(opts['boot']['catalog'])   # documented: a source file of that name would be excluded
+        if d.get('catname'):
+            # ... but only that one: a file of the same base name somewhere else is an ordinary file
+            base = cparts[-1]
+            where = [['zdocs', 'old'], ['adocs'], ['zdocs']][d['catname'] % 3]
+            for i in range(1, len(where) + 1):
+                add('/'.join(where[:i]), 'dir')
+            if '/'.join(where + [base]) != opts['boot']['catalog']:
+                add('/'.join(where + [base]), 'file', content={'seed': 4242 + d['catname'], 'size': 700})
     # directory chain for deep nesting
     cur = ''
     for i in range(d['chain']):
